@@ -15,6 +15,10 @@ if TYPE_CHECKING:
     from pest.grammar import Rule
 
 
+# WHITESPACE and COMMENT are matched atomically, even when referenced explicitly.
+TRIVIA_RULES = ("WHITESPACE", "COMMENT")
+
+
 def inline_builtin(expr: Expression, rules: Mapping[str, Rule]) -> Expression:  # noqa: ARG001
     """Inline built-in rules.
 
@@ -31,6 +35,6 @@ def inline_silent_rules(expr: Expression, rules: Mapping[str, Rule]) -> Expressi
     if isinstance(expr, Identifier):
         # A reference to an undefined rule is left alone.
         rule = rules.get(expr.value)
-        if rule and rule.modifier & SILENT:
+        if rule and rule.modifier & SILENT and rule.name not in TRIVIA_RULES:
             return rule.expression
     return expr
